@@ -29,6 +29,7 @@ be issued.
 from __future__ import absolute_import
 
 import uuid
+import collections.abc
 
 from slimta.relay import RelayError
 
@@ -65,11 +66,18 @@ class ProxyQueue(object):
 
     def enqueue(self, envelope):
         try:
-            self.relay._attempt(envelope, 0)
+            results = self.relay._attempt(envelope, 0)
         except RelayError as e:
             return [(envelope, e)]
-        else:
-            return [(envelope, uuid.uuid4().hex)]
+        # A relay may also report a failure per recipient, as a mapping or
+        # a sequence of results: the message is only relayed if none failed.
+        if isinstance(results, collections.abc.Mapping):
+            results = list(results.values())
+        if isinstance(results, collections.abc.Sequence):
+            for result in results:
+                if isinstance(result, RelayError):
+                    return [(envelope, result)]
+        return [(envelope, uuid.uuid4().hex)]
 
 
 # vim:et:fdm=marker:sts=4:sw=4:ts=4
